@@ -95,6 +95,8 @@ def main():
     only = None
     jobs = 4
     with_tests = False
+    prop = None
+    as_json = False
     args = sys.argv[1:]
     i = 0
     while i < len(args):
@@ -104,15 +106,22 @@ def main():
             jobs = int(args[i + 1]); i += 2
         elif args[i] == '--tests':
             with_tests = True; i += 1
+        elif args[i] == '--prop':
+            prop = args[i + 1]; i += 2
+        elif args[i] == '--json':
+            as_json = True; i += 1
         else:
             i += 1
     work = [(m, False) for m in mutants.MUTANTS] + [(m, True) for m in mutants.NEUTRAL]
     if only:
         work = [(m, n) for m, n in work if only in m['id']]
+    if prop:
+        # only this property's mutants, checked only against this property
+        work = [(dict(m, props=[prop]), n) for m, n in work if prop in m['props']]
     t0 = time.time()
     # baseline: unmodified copy must be silent
     results = []
-    if not only:
+    if not only and not prop:
         d = make_copy()
         base = {}
         props = sorted({p for m, _ in work for p in m['props']})
@@ -138,7 +147,9 @@ def main():
         'wall_s': round(time.time() - t0, 1),
     }
     print(summary)
-    if not only:
+    if as_json:
+        print(json.dumps({'summary': summary, 'mutants': [{'id': r_['id'], 'status': r_['status'], 'neutral': r_.get('neutral', False)} for r_ in results]}))
+    if not only and not prop:
         json.dump({'summary': summary, 'results': results}, open(os.path.join(HERE, 'last_result.json'), 'w'), indent=1)
     return 0 if summary['caught'] == summary['mutants'] and summary['neutral'] == summary['neutral_silent'] else 1
 
